@@ -286,6 +286,16 @@ func c20CRSetup(k connCfg, variant string) func(c *fw.Ctx, name string) explore.
 			w.GoHarness("main", true, func() {
 				conn := mkConn(p, k)
 				bg := vctx.Background()
+				if variant == "writer-closed-twice" {
+					// earlier in the connection's life: a message writer that is closed twice (the
+					// second Close reports an error; a deferred Close after an explicit one)
+					p.Window = 0
+					if wr, err := conn.Writer(bg, websocket.MessageText); err == nil {
+						wr.Write([]byte("hello"))
+						wr.Close()
+						wr.Close()
+					}
+				}
 				t0 := w.Now
 				crs := 1
 				if variant == "two-closeread" {
@@ -321,6 +331,26 @@ func c20CRSetup(k connCfg, variant string) func(c *fw.Ctx, name string) explore.
 						vtime.Sleep(3 * time.Second)
 						p.SetWindow(0)
 					}
+					if variant == "streaming-peer" {
+						// the handshake's Close frame gets out; the peer never sends its own and keeps
+						// streaming: one small frame every 4 s for 24 s
+						p.SetWindow(0)
+						for i := 0; i < 6; i++ {
+							vtime.Sleep(4 * time.Second)
+							p.Send(peerData(k, frame.OpBinary, true, fill(0xE1, 5)))
+						}
+					}
+					if variant == "writer-closed-twice" {
+						// the peer answers the policy-violation Close frame
+						var cf frame.Frame
+						if p.WaitOut("close-frame", func(out []byte) bool {
+							f, ok := firstClose(out)
+							cf = f
+							return ok
+						}) {
+							p.Send(peerFrame(k, frame.Frame{Fin: true, Opcode: frame.OpClose, Payload: cf.Payload}))
+						}
+					}
 					if variant == "stall-in-discard" {
 						// the handshake's Close frame gets out; the peer answers with the
 						// beginning of a data frame and goes silent inside its payload
@@ -346,7 +376,7 @@ func c20CRSetup(k connCfg, variant string) func(c *fw.Ctx, name string) explore.
 					if variant == "transport-close-lingers" {
 						vtime.Sleep(time.Second) // the connection is being closed by the library by now
 					}
-					if variant == "slow-handshake" || variant == "stall-in-discard" || variant == "unfinished-message" || variant == "ping-then-header" {
+					if variant == "slow-handshake" || variant == "stall-in-discard" || variant == "unfinished-message" || variant == "ping-then-header" || variant == "streaming-peer" || variant == "writer-closed-twice" {
 						// let the CloseRead goroutine start its close handshake first
 						p.WaitOut("close-begun", func(out []byte) bool { return len(out) > 0 })
 						endErr = conn.Close(websocket.StatusNormalClosure, "")
@@ -449,10 +479,13 @@ func c20Scenarios(tier string) []scenario {
 		}
 	}
 	for _, k := range []connCfg{{Client: false}, {Client: true}} {
-		for _, v := range []string{"two-closeread", "slow-handshake", "stall-in-discard", "transport-close-fails", "transport-close-lingers", "unfinished-message", "ping-then-header"} {
+		for _, v := range []string{"two-closeread", "slow-handshake", "stall-in-discard", "transport-close-fails", "transport-close-lingers", "unfinished-message", "ping-then-header", "streaming-peer", "writer-closed-twice"} {
 			pv := 2
 			if tier == "thorough" {
 				pv = 3
+			}
+			if v == "writer-closed-twice" {
+				pv-- // (the echoing peer adds a task; the history itself needs no preemption)
 			}
 			scs = append(scs, scenario{Name: "cr/" + v + "/" + k.String(), Cfg: explore.Config{P: pv, T: 1, E: 0, Horizon: 120e9}, Setup: c20CRSetup(k, v)})
 		}
